@@ -694,28 +694,33 @@ class Engine:
                 raise PathAbort("assumption false in concrete replay")
             return
         if isinstance(cond, SBool):
-            self._add(cond.e)
-            if self.model is None:
-                r = self._check()
-                if r == z3.unsat:
-                    raise PathAbort("assumption infeasible")
-                if r == z3.sat:
-                    self.model = self.solver.model()
+            self._add(cond.e)   # feasibility is established lazily (next branch / end of path)
         elif not cond:
             raise PathAbort("assumption false")
 
     def concretize(self, x):
-        """Bounded, recorded enumeration of the feasible values of x."""
+        """Bounded, recorded enumeration of the feasible values of x, smallest
+        first (the order must not depend on which model the solver happens to
+        return, or re-execution would diverge)."""
         for _ in range(self.max_concretize):
-            m = self._ensure_model()
-            v = m.eval(x.e, model_completion=True)
-            if not z3.is_int_value(v):
-                raise Unsupported("non-integer concretisation")
-            v = v.as_long()
+            v = self._min_value(x)
             self.stats["concretisations"] += 1
             if self.branch(x.e == v):
                 return v
         raise Unsupported("concretisation bound exceeded")
+
+    def _min_value(self, x):
+        m = self._ensure_model()
+        v = m.eval(x.e, model_completion=True)
+        if not z3.is_int_value(v):
+            raise Unsupported("non-integer concretisation")
+        v = v.as_long()
+        for _ in range(4 * self.max_concretize):
+            ok, m2 = self._feasible(x.e < v)
+            if not ok:
+                return v
+            v = m2.eval(x.e, model_completion=True).as_long()
+        raise Unsupported("no minimal value (unbounded below)")
 
     # -- obligations ------------------------------------------------------
     def model_values(self, m=None):
@@ -862,6 +867,11 @@ class Engine:
                 fn(self)
             except PathAbort:
                 aborted = True
+            if not aborted:
+                try:
+                    self._ensure_model()
+                except PathAbort:
+                    aborted = True
             if not aborted:
                 self.stats["paths"] += 1
                 if validate is not None:
